@@ -851,10 +851,13 @@ def run_chain(case, rep):
     exp = {}
     for v in vals:
         exp.update(v)
+    # an output computed by several children: executing the children one after the other, the last writer wins, for the
+    # value (dict.update above) AND for the whole Jacobian row of that output (blocks w.r.t. inputs the last child does
+    # not read are zero; they are checked by the "missing blocks are zero" clause below), never a merge of the rows
     exp_j = {}
     for j in jacs:
         for o, row in j.items():
-            exp_j.setdefault(o, {}).update(row)
+            exp_j[o] = dict(row)
     if additive:
         exp["s"] = sum([v["s"] for v in vals])
         exp_j["s"] = {}
@@ -862,13 +865,18 @@ def run_chain(case, rep):
             terms = [j["s"][name] for j in jacs if name in j["s"]]
             if terms:
                 exp_j["s"][name] = sum(terms)
-    twin = {}
+    twin, twin_j = {}, {}
     for d in make():
         out = d.execute({"x": x.copy(), "z": z.copy()})
         twin.update({k: out[k] for k in d.io.output_grammar})
+        d.linearize({"x": x.copy(), "z": z.copy()}, compute_all_jacobians=True)
+        for o in d.io.output_grammar:  # last writer wins for the whole row
+            twin_j[o] = {i: dense(b) for i, b in d.jac[o].items()}
     if additive:
         twin["s"] = exp["s"]
-    if not map_eq(twin, exp):
+        twin_j["s"] = exp_j["s"]
+    if not map_eq(twin, exp) or set(twin_j) != set(exp_j) or any(set(twin_j[o]) != set(exp_j[o]) for o in exp_j) \
+            or not jac_eq(twin_j, exp_j, tol=1e-13):
         rep.inconclusive("harness: sequential twin of the chain differs from the closed form")
         return
     finish = {}
@@ -916,7 +924,7 @@ def run_chain(case, rep):
         rep.violation(f"C13:{type(chain).__name__}._compute_jacobian:jacobian-differs-from-sequential:{feats}",
                       "chain Jacobians equal the sequential ones", case, brief(jac), brief(exp_j))
         return
-    # blocks that no discipline provides must be zero
+    # blocks that the (last) discipline computing the output does not provide must be zero
     for o in exp:
         for i in ("x", "z"):
             if i not in exp_j.get(o, {}):
